@@ -66,6 +66,12 @@ func kfBar(args []KeyBuilderStage) (KeyBuilderStage, error) {
 	if !maxLenOk {
 		return stageArgError(ErrNum, 2)
 	}
+	if maxLen > maxOutputLen {
+		return stageArgError(ErrValue, 2)
+	}
+	if maxLen < 0 { // draws nothing; but -6141686018427387904 wrapped to a huge width in the block arithmetic
+		maxLen = 0
+	}
 
 	scaler := termscaler.ScalerLinear
 	if len(args) >= 4 {
